@@ -209,6 +209,10 @@ def run_case(case):
                     V('streams_not_restored_between_tests', 'at end of %s: stdout original=%s stderr original=%s' % (tid, ev[-4], ev[-3]), at='run<', script=spec['tests'][int(tid[1:])]['s'])
             elif what in ('setUp', 'body', 'w2', 'wsub'):
                 reached.setdefault(tid, set()).add(what)
+        if buf and ev[1] == 'L' and not (ev[-4] and ev[-3]):
+            # the layer's hooks (setUp/tearDown and the per-test ones) run
+            # between tests
+            V('streams_not_restored_between_tests', 'in layer hook %s: stdout original=%s stderr original=%s' % (ev[2:5], ev[-4], ev[-3]), at='L:' + str(ev[3]))
         if not buf and not (ev[-4] and ev[-3]) and (ev[1] == 'L' or ev[3] in ('run>', 'run<', 'setUp', 'tearDown')):
             # (events inside a test body may see the test's own redirection)
             V('streams_replaced_without_buffer', 'event %s' % (ev,))
